@@ -338,6 +338,14 @@ pub fn run(ctx: &Ctx) -> i32 {
         st.count(&format!("random_{name}"));
         check_case(ctx, st, &tcs, s);
     });
+    // repeated blanks / multi-code-point graphemes at positions without a preceding atom
+    let mut det = gen::blank_repeat_cases();
+    det.extend(gen::cluster_repeat_cases());
+    let det_settings = [VERB | REP, VERB | REP | NOSTART, VERB | REP | CAP, VERB | REP | NOSTART | NOEND, REP, REP | ESC, VERB | REP | CI, REP | DIGIT | NWORD];
+    par_for(&ctx.run, det.len() * det_settings.len(), |i, st| {
+        st.count("blank_and_cluster_repeat_cases");
+        check_case(ctx, st, &det[i % det.len()], Settings::new(det_settings[i / det.len()]));
+    });
     // builder histories: setters repeated / overridden, builds interleaved, clones — the result of every build
     // must be valid for the settings accumulated at that point
     let n = if ctx.thorough { 100_000 } else { 3_000 };
